@@ -20,9 +20,60 @@ class SimFS:
         self.handles = []
 
     # the seam: bec2format.bf3file.open = simfs.open
+    # os-level seam (a writer may create its file with os.open and wrap the descriptor)
+    def os_open(self, path, flags, mode=0o777, **kw):
+        import os as _os
+        if path not in self.files:
+            if not flags & _os.O_CREAT:
+                raise FileNotFoundError(errno.ENOENT, "No such file (simulated)", path)
+            self.files[path] = b""
+        elif flags & _os.O_CREAT and flags & _os.O_EXCL:
+            raise FileExistsError(errno.EEXIST, "File exists (simulated)", path)
+        if flags & _os.O_TRUNC:
+            self.files[path] = b""
+        self._fds = getattr(self, "_fds", {})
+        fd = 1000 + len(self._fds)
+        self._fds[fd] = (path, flags)
+        self.trace.append(("os-open", path, flags))
+        return fd
+
+    def os_shim(self):
+        import os as _os
+        fs = self
+
+        class _Os:
+            def __getattr__(self, name):
+                return getattr(_os, name)
+
+            def open(self, path, flags, mode=0o777, **kw):
+                return fs.os_open(path, flags, mode, **kw)
+
+            def close(self, fd):
+                if fd in getattr(fs, "_fds", {}):
+                    return None
+                return _os.close(fd)
+
+            def fdopen(self, fd, *a, **k):
+                return fs.open(fd, *a, **k)
+        return _Os()
+
     def open(self, path, mode="r", buffering=-1, encoding=None, errors=None, newline=None, **kw):
         """as builtins.open for text files; encoding None = the platform default (UTF-8 here)"""
         enc = encoding or "utf-8"
+        if isinstance(path, int):
+            # wrapping a descriptor from os_open: mode "w" does NOT truncate an already open descriptor
+            name, flags = getattr(self, "_fds", {}).get(path, (None, 0))
+            if name is None:
+                raise OSError(errno.EBADF, "Bad file descriptor (simulated)")
+            if mode.startswith("w") or mode.startswith("a"):
+                h = SimTextWriter(self, name, newline, self.plan.get(name, {}), enc)
+                h.base = self.files.get(name, b"")
+                h.append = mode.startswith("a")
+                self.handles.append(h)
+                return h
+            h = SimTextReader(self.files[name], newline, enc, errors)
+            self.handles.append(h)
+            return h
         if "b" in mode:
             raise ValueError("SimFS is a text-file seam")
         if mode.startswith("w"):
@@ -100,8 +151,17 @@ class SimTextWriter:
         self.records.append(len(data))
         return len(s)
 
+    base = None      # set for handles that wrap a descriptor of an existing file (no truncation)
+    append = False
+
     def flush(self):
         if self.dead or self.closed:
+            return
+        if self.base is not None and not self.append:
+            # overwrite in place from offset 0: what lies beyond the written bytes stays
+            self.written = getattr(self, "written", b"") + b"".join(self.volatile)
+            self.fs.files[self.name] = self.written + self.base[len(self.written):]
+            self.volatile = []
             return
         self.fs.files[self.name] = self.fs.files.get(self.name, b"") + b"".join(self.volatile)
         self.volatile = []
